@@ -54,6 +54,16 @@ FLAVOURS = {
     },
 }
 
+FLAVOURS["cov"] = {
+    # source-based coverage of /repo/src under a check's own workload (stage `reach`, thorough tier)
+    "dir": "harness",
+    "env": {"CARGO_TARGET_DIR": os.path.join(TARGET, "cov")},
+    "rustflags": "-Cinstrument-coverage --cap-lints=warn",
+    "fp_root": os.path.join(TARGET, "cov"),
+    "build": ["cargo", "+nightly", "build", "--offline", "--profile", "mon"],
+    "binary": "cov/mon/sodg-monitor",
+}
+
 SETUP_FLAVOURS = ["mon", "asan", "miri1", "miri2"]
 
 _FP = re.compile(r"^sodg-[0-9a-f]+$")
@@ -153,6 +163,8 @@ def run_stage(stage, prop, tier, seed, plan, workdir, build, cargo_env, log):
     t0 = time.time()
     if stage == "offline":
         return run_offline(prop, tier, seed, sp, workdir, build, cargo_env, log)
+    if stage == "reach":
+        return run_reach(prop, tier, seed, plan, sp, workdir, build, cargo_env, log)
     try:
         if stage == "memcheck":
             binary, _, _ = build("mon")
@@ -329,4 +341,116 @@ def run_offline(prop, tier, seed, sp, workdir, build, cargo_env, log):
         res["inconclusive"].append(f"offline: only {summary.get('histories', 0)} histories were dumped")
     log(f"  stage offline: second oracle re-judged {summary.get('histories')} histories / {summary.get('calls')} calls, "
         f"{summary.get('disagreements')} disagreements, {time.time() - t0:.1f}s")
+    return res
+
+
+def _llvm_tool(name):
+    try:
+        root = subprocess.run(["rustc", "+nightly", "--print", "sysroot"], capture_output=True, text=True, timeout=60).stdout.strip()
+    except (OSError, subprocess.TimeoutExpired):
+        return None
+    p = os.path.join(root, "lib", "rustlib", TRIPLE, "bin", name)
+    return p if os.path.exists(p) else None
+
+
+def _ranges(nums):
+    out, start, prev = [], None, None
+    for n in sorted(nums):
+        if start is None:
+            start = prev = n
+        elif n == prev + 1:
+            prev = n
+        else:
+            out.append(f"{start}-{prev}" if prev > start else str(start))
+            start = prev = n
+    if start is not None:
+        out.append(f"{start}-{prev}" if prev > start else str(start))
+    return out
+
+
+def run_reach(prop, tier, seed, plan, sp, workdir, build, cargo_env, log):
+    """Reach of the workload (DESIGN §10 'reach'): the check's own shards are run once more in a build with LLVM
+    source-based coverage counters, and the lines of /repo/src they executed are reported per file. Never a
+    violation; an anchor file of the property in which no line at all was executed makes the run inconclusive
+    (the workload did not reach the code the property is anchored in)."""
+    res = {"coverage": {}, "violations": [], "inconclusive": [], "evaluations": 0, "nontrivial": [], "calls": 0, "samples": []}
+    t0 = time.time()
+    repo = os.environ.get("SODG_REPO", "/repo")
+    profdata, cov = _llvm_tool("llvm-profdata"), _llvm_tool("llvm-cov")
+    if not profdata or not cov:
+        res["inconclusive"].append("reach: llvm-profdata / llvm-cov not found in the nightly sysroot")
+        return res
+    try:
+        binary, _, _ = build("cov")
+    except Exception as e:  # noqa: BLE001
+        res["inconclusive"].append(f"reach: build failed: {str(e)[-800:]}")
+        return res
+    env = _env_for("cov", cargo_env())
+    env["LLVM_PROFILE_FILE"] = os.path.join(workdir, "reach-%p.profraw")
+    procs = []
+    for i in range(sp["shards"]):
+        out = os.path.join(workdir, f"shard-reach-{i}.json")
+        cmd = [binary, "run", "--prop", prop, "--seed", str(seed + 31), "--shard", str(i), "--shards", str(sp["shards"]),
+               "--count", str(sp["count"]), "--tier", tier, "--work", workdir, "--replays", os.path.join(workdir, "reach-replays"),
+               "--budget", str(sp["budget_s"]), "--out", out]
+        if plan.get("mode"):
+            cmd += ["--mode", plan["mode"]]
+        procs.append(subprocess.Popen(cmd, env=env, stdout=subprocess.DEVNULL, stderr=subprocess.DEVNULL))
+    for p in procs:
+        try:
+            p.wait(timeout=sp["watchdog_s"])
+        except subprocess.TimeoutExpired:
+            p.kill()
+            p.wait()
+    raws = [os.path.join(workdir, f) for f in os.listdir(workdir) if f.startswith("reach-") and f.endswith(".profraw")]
+    if not raws:
+        res["inconclusive"].append("reach: no coverage profile was written")
+        return res
+    merged = os.path.join(workdir, "reach.profdata")
+    pr = subprocess.run([profdata, "merge", "-sparse", "-o", merged] + raws, capture_output=True, text=True)
+    if pr.returncode != 0:
+        res["inconclusive"].append(f"reach: llvm-profdata failed: {pr.stderr[-300:]}")
+        return res
+    pr = subprocess.run([cov, "export", binary, f"-instr-profile={merged}", "-format=lcov", os.path.join(repo, "src")],
+                        capture_output=True, text=True)
+    if pr.returncode != 0 or "SF:" not in pr.stdout:
+        res["inconclusive"].append(f"reach: llvm-cov failed: {pr.stderr[-300:]}")
+        return res
+    files, cur = {}, None
+    for line in pr.stdout.splitlines():
+        if line.startswith("SF:"):
+            cur = files.setdefault(os.path.relpath(line[3:], repo), {"lines": {}, "fn": {}})
+        elif cur is None:
+            continue
+        elif line.startswith("DA:"):
+            ln, cnt = line[3:].split(",")[:2]
+            cur["lines"][int(ln)] = cur["lines"].get(int(ln), 0) + int(cnt)
+        elif line.startswith("FNDA:"):
+            cnt, name = line[5:].split(",", 1)
+            cur["fn"][name] = cur["fn"].get(name, 0) + int(cnt)
+    per_file, tot, hit = {}, 0, 0
+    for f, d in sorted(files.items()):
+        if f.endswith("verif.rs"):
+            continue
+        lt, lh = len(d["lines"]), sum(1 for c in d["lines"].values() if c > 0)
+        tot, hit = tot + lt, hit + lh
+        per_file[f] = {"lines_instrumented": lt, "lines_executed": lh,
+                       "functions_instantiated": len(d["fn"]), "functions_executed": sum(1 for c in d["fn"].values() if c > 0),
+                       "lines_never_executed": _ranges([n for n, c in d["lines"].items() if c == 0])[:60]}
+    anchors = [a for a in sp.get("anchors", []) if a.startswith("src/")]
+    anchor_cov = {}
+    for a in anchors:
+        pf = per_file.get(a)
+        if pf is None:
+            continue  # a file without executable code (or compiled out)
+        anchor_cov[a] = f"{pf['lines_executed']}/{pf['lines_instrumented']}"
+        if pf["lines_instrumented"] > 0 and pf["lines_executed"] == 0:
+            res["inconclusive"].append(f"reach: no line of the anchor file {a} was executed by this check's workload")
+    res["coverage"] = {
+        "what": "lines of /repo/src executed by this check's own workload (LLVM source-based coverage, cfg(test) code not compiled; "
+                "generic code is merged over all instantiations); says where the monitors looked, not that anything is verified",
+        "processes": sp["shards"], "profiles_merged": len(raws),
+        "lines_instrumented": tot, "lines_executed": hit,
+        "anchor_files_lines_executed": anchor_cov, "per_file": per_file, "wall_s": round(time.time() - t0, 1)}
+    log(f"  stage reach: {hit}/{tot} lines of /repo/src executed by this workload; anchors {anchor_cov}, {time.time() - t0:.1f}s")
     return res
